@@ -281,11 +281,12 @@ def r04_3(ctx: Ctx, rep: Report) -> None:  # noqa: C901
 
 
 def run(ctx: Ctx, rep: Report, tier: str) -> None:
-    fields = r03_1(ctx, rep, rid="R04.0")
-    for fld in ("_srcport", "_dstport"):
-        h = helper_for_field(ctx, rep, fld)
-        if h is not None:
-            port_cover_rules(ctx, rep, h, fld, rid4="R04.0", do7=False)
+    # R04.0 premise: the pairwise test is sound on every clause C03 decides (an unsound shadow_of makes every removal unsafe)
+    from . import c03
+
+    sub = Report("C04")
+    c03.run(ctx, sub, tier)
+    rep.absorb(sub, "R04.0")
     r04_1(ctx, rep)
     rep.rule("R04.2")
     check_strictly_above(ctx, rep, analyse_shading(ctx))
